@@ -67,3 +67,26 @@ pub fn spec_wake(tc: u32, ca: u32) -> Option<char> {
         _ => None,
     }
 }
+
+/// Postcondition of the callsign decoder: a value is always produced and it is exactly the
+/// specified character sequence.
+pub fn callsign_ok(m: &[u32], r: &Option<String>) -> bool {
+    match r {
+        None => false,
+        Some(s) => {
+            let (exp, n) = spec_callsign(m);
+            let b = s.as_bytes();
+            if b.len() != n {
+                return false;
+            }
+            let mut i = 0;
+            while i < n {
+                if b[i] != exp[i] {
+                    return false;
+                }
+                i += 1;
+            }
+            true
+        }
+    }
+}
